@@ -848,6 +848,9 @@ int batchMain(int argc, char **argv) {
   for (int s = 0; s < cfg.workers; ++s) spawn(s);
   int alive = cfg.workers;
   long long respawns = 0;
+  double slowestRun = 0;
+  long long slowestIdx = -1;
+  long long timeouts = 0, deaths = 0;
   // ---- aggregation (on the fly: only runs that need a second look are kept) ----
   Counters stats;
   std::set<uint64_t> traceHashes, stateHashes, schedHashes;
@@ -903,6 +906,11 @@ int batchMain(int argc, char **argv) {
       return;
     }
     if (line.size() >= 2 && line[0] == 'E' && line[1] == '\t') {
+      double took = nowSec() - w.startedAt;
+      if (took > slowestRun) {
+        slowestRun = took;
+        slowestIdx = w.resultIdx;
+      }
       absorb(w.resultIdx, w.partial, w.nondet);
       w.inResult = false;
       w.current = -1;
@@ -959,6 +967,11 @@ int batchMain(int argc, char **argv) {
           rr.crash.timeout = timedOut;
           rr.crash.marker = sh->markers[slots[k]];
           classifyCrash(rr.crash, status, readFile(w.errPath));
+          ++deaths;
+          if (timedOut) ++timeouts;
+          // fail fast: the violation is established, do not burn the budget on
+          // hundreds of further watchdog waits or sanitizer reports
+          if (timeouts >= 3 || deaths >= 300) sh->stop.store(1);
         }
         unlink(w.errPath.c_str());
         bool more = sh->next.load() < cfg.runs && !sh->stop.load();
@@ -1056,7 +1069,8 @@ int batchMain(int argc, char **argv) {
       continue;
     }
     // determinism gate: same plan, fresh processes, twice
-    IsoResult a = runIsolated(plan, cfg.runTimeout), b = runIsolated(plan, cfg.runTimeout);
+    double isoT = clause == "hang" ? std::max(60.0, 3 * cfg.runTimeout) : std::max(60.0, cfg.runTimeout);
+    IsoResult a = runIsolated(plan, isoT), b = runIsolated(plan, isoT);
     VClass ca = classOf(cfg.prop, plan, a, clause), cb = classOf(cfg.prop, plan, b, clause);
     bool sameTrace = a.completed == b.completed && (!a.completed || a.res.traceHash == b.res.traceHash);
     if (!ca.any || !cb.any || ca.key() != cb.key() || !sameTrace) {
@@ -1069,10 +1083,11 @@ int batchMain(int argc, char **argv) {
     mz.wantKey = ca.key();
     mz.budget = cfg.minimiseBudget;
     mz.deadline = nowSec() + (cfg.tier ? 240 : 90);
-    mz.isoTimeout = cfg.runTimeout;
+    mz.isoTimeout = clause == "hang" ? std::max(20.0, cfg.runTimeout) : std::max(60.0, cfg.runTimeout);
+    if (clause == "hang") mz.budget = std::min(mz.budget, 12);
     Plan small = mz.run(plan);
     // the minimised plan must still fail, identically, twice
-    IsoResult m1 = runIsolated(small, cfg.runTimeout), m2 = runIsolated(small, cfg.runTimeout);
+    IsoResult m1 = runIsolated(small, isoT), m2 = runIsolated(small, isoT);
     VClass c1 = classOf(cfg.prop, small, m1, clause), c2 = classOf(cfg.prop, small, m2, clause);
     if (!c1.any || !c2.any || c1.key() != c2.key()) small = plan, c1 = ca;
     std::string path = cfg.replayDir + "/" + cfg.prop + "-" + clause + "-" + std::to_string(rs.seed) + ".plan";
@@ -1112,6 +1127,7 @@ int batchMain(int argc, char **argv) {
     js << " \"distinct_traces\": " << traceHashes.size() << ",\n \"distinct_nontrivial\": " << nontrivial << ",\n";
     js << " \"distinct_exposed_states_sampled\": " << stateHashes.size() << ",\n \"distinct_schedules\": " << schedHashes.size() << ",\n";
     js << " \"nondeterministic_double_runs\": " << nondetRuns << ",\n \"harness_problems\": " << harnessProblems << ",\n";
+    js << " \"slowest_run_s\": " << slowestRun << ",\n \"stopped_early\": " << (sh->stop.load() ? "true" : "false") << ",\n";
     js << " \"wall_s\": " << wall << ",\n \"run_phase_s\": " << tRun << ",\n \"runs_per_hour\": " << (tRun > 0 ? executed * 3600.0 / tRun : 0) << ",\n";
     js << " \"violations\": " << unknownViolations << ",\n";
     js << " \"known_findings_matched\": [";
@@ -1173,6 +1189,7 @@ int batchMain(int argc, char **argv) {
     std::ofstream out(cfg.jsonOut);
     out << js.str();
   }
+  printf("NOTE slowest run %.1fs (index %lld)%s\n", slowestRun, slowestIdx, sh->stop.load() ? "; batch stopped early (fail fast)" : "");
   printf("SUMMARY property=%s flavour=%s executed=%lld invalid=%lld crashed=%lld distinct_traces=%zu nontrivial=%lld schedules=%zu violations=%d known=%zu harness_problems=%d wall=%.1fs (%.0f runs/h)\n", cfg.prop.c_str(), VERIF_FLAVOUR, executed, invalid, crashedRuns, traceHashes.size(), nontrivial, schedHashes.size(), unknownViolations, knownPrinted.size(), harnessProblems, wall, tRun > 0 ? executed * 3600.0 / tRun : 0.0);
   if (unknownViolations > 0) return 1;
   if (harnessProblems > 0) return 2;
